@@ -44,7 +44,8 @@ WITNESSES = [('useless_by_id', M_REF, {'k': 'RemoveUseless'}),
 
 # --------------------------------------------------------------- generator
 def gen_mesh(rng):
-    kind = rng.choice(['hex', 'mix', 'mix', 'tet', 'tet2', 'hex2', 'soup', 'soup', 'shell'])
+    kind = rng.choice(['hex', 'mix', 'mix', 'tet', 'tet2', 'hex2', 'soup', 'soup', 'shell', 'prism',
+                       'mix2', 'mix2', 'mix2'])
     elems = {}          # type -> list of connectivity (lattice node indices)
     if kind == 'soup':
         n_lat = rng.randrange(5, 14)
@@ -74,17 +75,27 @@ def gen_mesh(rng):
                 for k in range(nz):
                     h = [idx(i, j, k), idx(i + 1, j, k), idx(i + 1, j + 1, k), idx(i, j + 1, k),
                          idx(i, j, k + 1), idx(i + 1, j, k + 1), idx(i + 1, j + 1, k + 1), idx(i, j + 1, k + 1)]
-                    split = {'hex': 'hex', 'hex2': 'hex', 'tet': 'tet', 'tet2': 'tet',
-                             'mix': rng.choice(['hex', 'prism', 'tet'])}[kind]
-                    if split == 'hex':
-                        elems.setdefault('hex', []).append(h)
+                    split = {'hex': 'hex', 'hex2': 'hex', 'tet': 'tet', 'tet2': 'tet', 'prism': 'prism',
+                             'mix': rng.choice(['hex', 'prism', 'tet']),
+                             'mix2': rng.choice(['hex', 'tet', 'tetB', 'hexB'])}[kind]
+                    if split in ('hex', 'hexB'):
+                        elems.setdefault(split, []).append(h)
+                    elif split == 'tetB':
+                        for a, b_ in [(1, 2), (2, 3), (3, 7), (7, 4), (4, 5), (5, 1)]:
+                            elems.setdefault('tetB', []).append([h[0], h[a], h[b_], h[6]])
                     elif split == 'prism':
                         elems.setdefault('prism', []).extend(
                             [[h[0], h[1], h[2], h[4], h[5], h[6]], [h[0], h[2], h[3], h[4], h[6], h[7]]])
                     else:
                         for a, b_ in [(1, 2), (2, 3), (3, 7), (7, 4), (4, 5), (5, 1)]:
                             elems.setdefault('tet', []).append([h[0], h[a], h[b_], h[6]])
-        if kind in ('tet2', 'hex2'):
+        if kind == 'mix2':
+            # first and second order of the same family (and of another family) in one mesh:
+            # the 'B' cells become second order
+            if 'tetB' not in elems and 'hexB' not in elems:
+                src = 'tet' if 'tet' in elems else 'hex'
+                elems[src + 'B'] = elems.pop(src)
+        if kind in ('tet2', 'hex2', 'mix2'):
             mids = {}
 
             def mid(a, b_):
@@ -94,24 +105,34 @@ def gen_mesh(rng):
                     mids[key] = n_lat
                     n_lat += 1
                 return mids[key]
+            def tet2(cs):
+                return [c + [mid(c[1], c[2]), mid(c[0], c[2]), mid(c[0], c[1]),
+                             mid(c[0], c[3]), mid(c[1], c[3]), mid(c[2], c[3])] for c in cs]
+            edges = [(0, 1), (1, 2), (2, 3), (3, 0), (4, 5), (5, 6), (6, 7), (7, 4),
+                     (0, 4), (1, 5), (2, 6), (3, 7)]
+
+            def hex2(cs):
+                return [c + [mid(c[a], c[b_]) for a, b_ in edges] for c in cs]
             if kind == 'tet2':
-                elems = {'tet2': [c + [mid(c[1], c[2]), mid(c[0], c[2]), mid(c[0], c[1]),
-                                       mid(c[0], c[3]), mid(c[1], c[3]), mid(c[2], c[3])]
-                                  for c in elems['tet']]}
+                elems = {'tet2': tet2(elems['tet'])}
+            elif kind == 'hex2':
+                elems = {'hex2': hex2(elems['hex'])}
             else:
-                edges = [(0, 1), (1, 2), (2, 3), (3, 0), (4, 5), (5, 6), (6, 7), (7, 4),
-                         (0, 4), (1, 5), (2, 6), (3, 7)]
-                elems = {'hex2': [c + [mid(c[a], c[b_]) for a, b_ in edges] for c in elems['hex']]}
+                if 'tetB' in elems:
+                    elems['tet2'] = tet2(elems.pop('tetB'))
+                if 'hexB' in elems:
+                    elems['hex2'] = hex2(elems.pop('hexB'))
     n_extra = rng.choice([0, 0, 1, 2, 3])          # unreferenced nodes
     n_nodes = n_lat + n_extra
     used = sorted({v for cs in elems.values() for c in cs for v in c})
     # soup meshes may leave lattice nodes unused as well
-    mode = rng.choice(['dense', 'sparse', 'sparse', 'large'])
+    mode = rng.choice(['dense', 'sparse', 'sparse', 'large', 'almost', 'almost'])
 
     def fresh(k, pool):
         out = []
         while len(out) < k:
-            i = {'dense': rng.randrange(1, 3 * k + 10), 'sparse': rng.randrange(1, 100000),
+            i = {'dense': rng.randrange(1, 3 * k + 10), 'almost': rng.randrange(1, 3 * k + 10),
+                 'sparse': rng.randrange(1, 100000),
                  'large': rng.choice([rng.randrange(1, 60), rng.randrange(2 ** 31, 2 ** 31 + 60),
                                       rng.randrange(2 ** 40, 2 ** 40 + 60)])}[mode]
             if i not in pool:
@@ -120,10 +141,32 @@ def gen_mesh(rng):
         return out
     node_id = fresh(n_nodes, set())                # lattice index -> id
     order = list(range(n_nodes))
-    if rng.random() < 0.85:
-        rng.shuffle(order)                         # storage order != lattice order
-    if rng.random() < 0.1:
-        order.sort(key=lambda k: node_id[k])       # sometimes ascending ids
+    if mode == 'almost':
+        # dense ids a..a+n-1 stored almost sorted: ends in place + interior shuffled, two
+        # neighbours swapped, one id moved, reversed
+        a0 = rng.choice([1, 1, 0, 1000, 2 ** 31 - 3])
+        perm = list(range(n_nodes))
+        rng.shuffle(perm)
+        node_id = [a0 + p for p in perm]
+        order.sort(key=lambda k: node_id[k])
+        how = rng.choice(['interior', 'swap', 'move', 'reversed'])
+        if how == 'interior' and n_nodes > 3:
+            mid_ = order[1:-1]
+            rng.shuffle(mid_)
+            order = [order[0]] + mid_ + [order[-1]]
+        elif how == 'swap' and n_nodes > 1:
+            j = rng.randrange(n_nodes - 1)
+            order[j], order[j + 1] = order[j + 1], order[j]
+        elif how == 'move' and n_nodes > 2:
+            x = order.pop(rng.randrange(n_nodes))
+            order.insert(rng.randrange(n_nodes), x)
+        else:
+            order.reverse()
+    else:
+        if rng.random() < 0.85:
+            rng.shuffle(order)                     # storage order != lattice order
+        if rng.random() < 0.1:
+            order.sort(key=lambda k: node_id[k])   # sometimes ascending ids
     nodes = {'ids': [node_id[k] for k in order],
              'rows': [[node_id[k] % 1000 * 3 + 1, k, node_id[k] % 7] for k in order]}
     epool = set()
@@ -168,7 +211,13 @@ def gen_mesh(rng):
             eb.append([t, ids2, [[(i % 100003) * 10 + k * 1000003 + j + 5 for j in range(w)] for i in ids2]])
         if eb:
             elemental.append([k, eb, tail])
-    return {'nodes': nodes, 'elems': blocks, 'nodal': nodal, 'elemental': elemental, 'kind': kind,
+    dtypes = {'xyz': rng.choice(['float64', 'float64', 'float32', 'int64', 'int32']),
+              'nodal': [rng.choice(['float64', 'float64', 'int64', 'float32', 'bool']) for _ in nodal]}
+    for (k, ids, rows, tail), dt in zip(nodal, dtypes['nodal']):
+        if dt == 'bool':
+            for r_ in rows:
+                r_[:] = [v % 2 for v in r_]
+    return {'dtypes': dtypes, 'nodes': nodes, 'elems': blocks, 'nodal': nodal, 'elemental': elemental, 'kind': kind,
             'idmode': mode, 'var_modes': var_modes, 'n_extra': n_extra}
 
 
@@ -176,8 +225,26 @@ def gen_pre(rng, m):
     """edits through the public update API on existing ids (rows move to other values)"""
     pre = []
     nids = m['nodes']['ids']
-    kinds = rng.choice([['nodes'], ['nodes'], ['nodal'], ['nodes', 'nodal']])
+    kinds = rng.choice([['nodes'], ['nodes'], ['nodal'], ['nodes', 'nodal'], ['xyz'], ['conn'], ['conn', 'nodes']])
     for kd in kinds:
+        if kd == 'xyz':
+            # fem_data.nodes.data = new array (all coordinates replaced)
+            pre.append({'k': 'xyz', 'rows': [[i % 1000 * 3 + 5, 700 + j, i % 5] for j, i in enumerate(nids)]})
+            continue
+        if kd == 'conn':
+            # fem_data.elements.data = conn (single-type meshes): a new array, or the array
+            # returned by the getter edited in place and assigned back
+            if len(m['elems']) != 1:
+                continue
+            t, eids_, conn = m['elems'][0]
+            new = [list(c) for c in conn]
+            for _ in range(rng.randrange(1, 3)):
+                e = rng.randrange(len(new))
+                cands = [i for i in nids if i not in new[e]]
+                if cands:
+                    new[e][rng.randrange(len(new[e]))] = rng.choice(cands)
+            pre.append({'k': 'conn', 'rows': new, 'inplace': rng.random() < 0.5})
+            continue
         if kd == 'nodes':
             ids = rng.sample(nids, rng.randrange(1, len(nids) + 1)) if rng.random() < 0.8 else list(nids)
             pre.append({'k': 'nodes', 'ids': ids,
@@ -204,6 +271,10 @@ def edited(m, pre):
             rows = dict(zip(m2['nodes']['ids'], m2['nodes']['rows']))
             rows.update(zip(e['ids'], e['rows']))
             m2['nodes']['rows'] = [rows[i] for i in m2['nodes']['ids']]
+        elif e['k'] == 'xyz':
+            m2['nodes']['rows'] = [list(r) for r in e['rows']]
+        elif e['k'] == 'conn':
+            m2['elems'][0][2] = [list(r) for r in e['rows']]
         else:
             for v in m2['nodal']:
                 if v[0] == e['var']:
@@ -216,6 +287,12 @@ def edited(m, pre):
 def pre_l(pre):
     out = []
     for e in pre:
+        if e['k'] == 'xyz':
+            out.append('(EditXyz [' + ';'.join(zl(r) for r in e['rows']) + '])')
+            continue
+        if e['k'] == 'conn':
+            out.append('(EditConn [' + ';'.join(zl(r) for r in e['rows']) + '])')
+            continue
         t = table_l(list(zip(e['ids'], e['rows'])))
         out.append(f'(EditNodes {t})' if e['k'] == 'nodes' else f'(EditNodal {e["var"]}%nat {t})')
     return '[' + ';'.join(out) + ']'
@@ -328,7 +405,8 @@ def gen_ops(rng, m):
     if m['kind'] not in ('hex2', 'shell'):
         ops.append({'k': 'Surface', 'remove': True})
         if rng.random() < 0.4:
-            ops.append({'k': 'Surface', 'remove': False})
+            # falsy values that are not `False`
+            ops.append({'k': 'Surface', 'remove': False, 'flag': rng.choice(['False', 'None', '0', 'np.False_'])})
         ops.append({'k': 'Facets'})
     return ops
 
@@ -711,7 +789,7 @@ def main(ctx):
             if cfg is not None and flag and cfg.get(flag) and 'variable_order' in sig:
                 sig['note'] = 'carried by id in the source, values differ nevertheless'
             if c['pre']:
-                sig['after_update_of'] = '+'.join(e['k'] for e in c['pre'])
+                sig['after_update_of'] = '+'.join(sorted({e['k'] for e in c['pre']}))
             if c['first']:
                 sig['after_call_of'] = OPNAME.get(c['first']['k'], c['first']['k'])
             ctx.violation('impl-violation', {'mesh': c['mesh'], 'pre': c['pre'], 'first': c['first'], 'op': c['op']},
